@@ -284,7 +284,10 @@ class JsonSchemaParser:
                 prop_schema = prop
             attname = prop_schema.get('x-var-name') or key
             if not valid_attr(attname) or attname in attrs or hasattr(dict, attname):
-                attname = self.get_attname(attname, excludes=list(attrs))
+                # the generated name must differ from the names already taken and from every other property name
+                # ("a-b" next to "a_b")
+                attname = self.get_attname(
+                    attname, excludes=list(attrs) + [k for k in properties if k != key])
             alias = None
             if attname != key:
                 alias = key
